@@ -5,6 +5,7 @@ import (
 	"encoding/json"
 	"fmt"
 	"path/filepath"
+	"strings"
 
 	"pgregory.net/rapid"
 )
@@ -32,7 +33,17 @@ type statelessExtra struct {
 func (e *runEnv) statelessProperty(sp *StatelessProp) func(t *rapid.T) {
 	return func(t *rapid.T) {
 		in := sp.Gen(t)
-		v, classes, nt := sp.Check(in)
+		var v *Violation
+		var classes []string
+		var nt bool
+		func() {
+			defer func() {
+				if r := recover(); r != nil {
+					v = &Violation{Prop: sp.Prop, Msg: fmt.Sprintf("the code under test panicked: %v", r), Sig: strings.ToLower(sp.Prop) + ":" + sp.Name + ":panic"}
+				}
+			}()
+			v, classes, nt = sp.Check(in)
+		}()
 		bz, _ := json.Marshal(in)
 		if v != nil {
 			if kf := e.known.Match(*v); kf != nil {
